@@ -4,7 +4,7 @@
    set first, edit it and store it. *)
 From Coq Require Import List ZArith Bool Arith Lia.
 From SC Require Import Base.Res Base.PyList Inst.Heap Inst.ClassTable Inst.Model Inst.Canon
-  Inst.Abs Inst.SpecHelpers Inst.ElemProofs Inst.Framed Inst.RefineProofs Inst.CopyProofs Inst.CopyStore
+  Inst.Abs Inst.SpecHelpers Inst.ElemProofs Inst.Framed Inst.RefineProofs Inst.CopyProofs Inst.ElemRefineDep Inst.CopyStore
   Inst.ElemRefine Inst.ElemRefine2 Inst.ElemRefine4 Inst.ElemRefine5 Inst.ElemRefine6.
 Import ListNotations.
 Open Scope nat_scope.
@@ -447,7 +447,7 @@ Section MissingFrame.
   Hypothesis Ha : lookup_attr k a = Some sp.
   Hypothesis Hd : NoDup (map fst d).
   Hypothesis Hfz : c_frozen k = false.
-  Hypothesis Hni : no_inval k.
+  Hypothesis Hni : no_dep k a.
   Hypothesis Hcoll : ty_is_collection (a_ty sp) = true.
   Hypothesis Hnone : assoc a d = None.                      (* nothing in the instance dict *)
   Hypothesis Hov : assoc a (c_overrides k) = None.          (* no class-level value *)
@@ -506,7 +506,7 @@ Section MissingFrame.
     assert (absv h0 VMissing = AMissing) as -> by (rewrite absv_unfold; now apply abs_nonref_eq).
     cbn [sbind]. rewrite Hcoll. unfold coll_of. cbn [a_is_missing]. rewrite Hempty. cbn [sbind]. rewrite Hr.
     destruct r as [c'| | |]; cbn [sbind]; auto.
-    unfold invalidate, cls_for. rewrite Hc. cbn [sbind]. rewrite invalidatees_none by auto. reflexivity.
+    unfold invalidate, cls_for. rewrite Hc. cbn [sbind]. rewrite invalidatees_nodep by auto. reflexivity.
   Qed.
 
   Variable tail : val -> M val.
@@ -551,7 +551,7 @@ Section MissingFrame.
     { intros p Hp. destruct (Hflat p Hp) as [Hn|[lx [ox [E [Hx Hs]]]]]; [left; auto|].
       right. exists lx, ox. split; auto. split; auto. rewrite Hold_e; auto. apply nth_error_Some. congruence. }
     fold se.
-    rewrite (mutate_attr_inplace_run ct (exec ct XFUEL) l a (VRef lnew) false se c d k Hl_e Hc Hfz eq_refl Hni).
+    rewrite (mutate_attr_inplace_run_nodep ct (exec ct XFUEL) l a (VRef lnew) false se c d k Hl_e Hc Hfz eq_refl Hni).
     split; [reflexivity|]. split.
     { intros i Hi Hil. rewrite heap_upd, set_nth_other by auto. now apply Hold_e. }
     cbn [sbind]. f_equal. rewrite heap_upd, absv_unfold.
@@ -588,7 +588,7 @@ Section MissingAttr.
   Hypothesis Ha : lookup_attr k a = Some sp.
   Hypothesis Hd : NoDup (map fst d).
   Hypothesis Hfz : c_frozen k = false.
-  Hypothesis Hni : no_inval k.
+  Hypothesis Hni : no_dep k a.
   Hypothesis Hnone : assoc a d = None.
   Hypothesis Hov : assoc a (c_overrides k) = None.
   Hypothesis Hdef : a_default sp = VMissing.
